@@ -27,6 +27,10 @@ Next ==
   \/ ChildExit(1, 3)
   \/ ChildDie(1)
 
+\* The model says a failed start changes nothing, so all failed attempts lead to ONE model state and TLC would keep a single
+\* history for it. What is being tested here is precisely whether the CODE forgets the failed attempt, so the view keeps the
+\* failed attempt's options apart: every (failed options, later options) pair gets its own continuation.
+viewR == <<view, IF Len(hist) >= 4 THEN hist[4] ELSE 0>>
 Spec == Init /\ [][Next]_vars
 Export == ExportRet
 =============================================================================
